@@ -8,51 +8,64 @@ def corpus_files(pid):
 
 
 def k1_generic(P, tier, seed, scratch, replay, can_run):
-    """One harness subcommand, cases compared line by line with the extracted model."""
-    out = {"oracle_failures": [], "mismatches": [], "harness_failures": [], "tie_obligations": [], "notes": []}
+    """One or several harness subcommands; cases compared line by line with the extracted model."""
+    out = {"oracle_failures": [], "mismatches": [], "harness_failures": [], "tie_obligations": [], "notes": [],
+           "evaluations": 0, "distinct_nontrivial": 0, "distribution": {}, "samples": []}
+    subs = P.get("subcmds") or [(P["subcmd"], P["counts"])]
     if not can_run:
         out["harness_failures"].append({"what": "driver or harness did not build"})
-        out["tie_obligations"].append({"name": f"K1 {P['subcmd']} model = implementation", "ok": False})
+        out["tie_obligations"].append({"name": f"K1 {subs[0][0]} model = implementation", "ok": False})
         return out
-    total = P["counts"][tier]
-    extra = list(P.get("extra_args", {}).get(tier, []))
-    corpus = corpus_files(P["id"])
-    if replay:
-        import json
-        rp = json.load(open(replay))
-        cf = os.path.join(scratch, "replay.case")
-        open(cf, "w").write(rp.get("case", "") + "\n")
-        corpus = [cf]
-        total = 0
-    shards = 1 if total < 64 else min(vlib.NPROC, P.get("shards", vlib.NPROC))
-    r = vlib.k1_run(P["subcmd"], seed, total, shards, scratch, extra_args=extra, corpus=corpus,
-                    timeout=P.get("timeout", {}).get(tier, 3000))
-    st = vlib.merge_stats(r["stats"])
-    out.update(oracle_failures=r["oracle_failures"], mismatches=r["mismatches"], harness_failures=r["harness_failures"],
-               evaluations=st["evaluations"], distinct_nontrivial=st["distinct_nontrivial"], distribution=st["distribution"])
-    out["tie_obligations"].append({"name": f"K1 {P['subcmd']}: extracted model output = implementation output on {r['cases']} cases",
-                                   "ok": not r["mismatches"] and not r["harness_failures"] and r["cases"] > 0})
-    out["tie_obligations"].append({"name": f"property oracle accepts every implementation observation ({r['cases']} cases)",
-                                   "ok": not r["oracle_failures"]})
-    samples = []
-    for d in r["dirs"][:1]:
-        try:
-            cs = open(os.path.join(d, "cases.txt")).read().splitlines()[:3]
-            im = open(os.path.join(d, "impl.txt")).read().splitlines()[:3]
-            samples = [{"case": c[:600], "observation": i[:600]} for c, i in zip(cs, im)]
-        except Exception:
-            pass
-    out["samples"] = samples
-    out["notes"].append(f"impl {r['t_impl']:.1f}s, model {r.get('t_model', 0):.1f}s, shards {shards}")
+    for idx, (subcmd, counts) in enumerate(subs):
+        total = counts[tier]
+        extra = list(P.get("extra_args", {}).get(tier, []))
+        corpus = corpus_files(P["id"]) if idx == 0 else []
+        if replay:
+            import json
+            rp = json.load(open(replay))
+            cf = os.path.join(scratch, "replay.case")
+            open(cf, "w").write(rp.get("case", "") + "\n")
+            corpus = [cf] if idx == 0 else []
+            total = 0
+            if idx > 0:
+                continue
+        shards = 1 if total < 64 else min(vlib.NPROC, P.get("shards", vlib.NPROC))
+        r = vlib.k1_run(subcmd, seed, total, shards, scratch, extra_args=extra, corpus=corpus,
+                        timeout=P.get("timeout", {}).get(tier, 3000))
+        st = vlib.merge_stats(r["stats"])
+        out["oracle_failures"] += r["oracle_failures"]
+        out["mismatches"] += r["mismatches"]
+        out["harness_failures"] += r["harness_failures"]
+        out["evaluations"] += st["evaluations"]
+        out["distinct_nontrivial"] += st["distinct_nontrivial"]
+        for k, v in st["distribution"].items():
+            key = k if len(subs) == 1 else f"{subcmd}:{k}"
+            out["distribution"][key] = out["distribution"].get(key, 0) + v
+        out["tie_obligations"].append({"name": f"K1 {subcmd}: extracted model output = implementation output on {r['cases']} cases",
+                                       "ok": not r["mismatches"] and not r["harness_failures"] and r["cases"] > 0})
+        out["tie_obligations"].append({"name": f"property oracle accepts every implementation observation ({subcmd}, {r['cases']} cases)",
+                                       "ok": not r["oracle_failures"]})
+        for d in r["dirs"][:1]:
+            try:
+                cs = open(os.path.join(d, "cases.txt")).read().splitlines()[:2]
+                im = open(os.path.join(d, "impl.txt")).read().splitlines()[:2]
+                out["samples"] += [{"case": c[:600], "observation": i[:600]} for c, i in zip(cs, im)]
+            except Exception:
+                pass
+        out["notes"].append(f"{subcmd}: impl {r['t_impl']:.1f}s, model {r.get('t_model', 0):.1f}s, shards {shards}")
     return out
 
 
 def search_generic(P, seed, scratch):
     d = os.path.join(scratch, "search")
     os.makedirs(d, exist_ok=True)
-    r = vlib.k1_run(P["subcmd"], seed + 7919, P["counts"]["search"], vlib.NPROC, d,
-                    extra_args=list(P.get("extra_args", {}).get("search", [])), timeout=1200)
-    return r
+    subs = P.get("subcmds") or [(P["subcmd"], P["counts"])]
+    res = {"oracle_failures": []}
+    for subcmd, counts in subs:
+        r = vlib.k1_run(subcmd, seed + 7919, counts["search"], vlib.NPROC, d,
+                        extra_args=list(P.get("extra_args", {}).get("search", [])), timeout=1200)
+        res["oracle_failures"] += r["oracle_failures"]
+    return res
 
 
 PROPS = {}
@@ -111,6 +124,7 @@ prop(
 
 prop(
     id="C07", module="Properties.C07", vfile="Properties/C07.v", level="proof", subcmd="c07",
+    subcmds=[("c07", {"quick": 1600, "thorough": 60000, "search": 8000}), ("c09rc", {"quick": 160, "thorough": 6000, "search": 800})],
     theorems=["C07_positive_readable", "C07_logged_iff"],
     counts={"quick": 1600, "thorough": 60000, "search": 8000},
     rule=HIST_RULE + "; C07 histories use counted columns only (hash and btree), operations set / dereference / reference, "
@@ -131,4 +145,22 @@ prop(
     assumptions=["error classes covered here: reference on a column without counting (hash and btree); tree-operation classes are covered by the multitree checks (C10/C11)",
                  "background-error refusal is proved on the model and exercised by the C16 check"],
     explanation="commit of the pipeline model reproduces the order of checks and side effects of commit_changes/commit_raw; theorem: an error returns the unchanged state",
+)
+
+prop(
+    id="C17", module="Properties.C17", vfile="Properties/C17.v", level="proof", subcmd="c17",
+    theorems=["C17_options_roundtrip", "C17_validate_iff", "C17_validate_classes", "C17_prefixes_disjoint",
+              "C17_drop_files_frame", "C17_drop_files_empties", "C17_non_column_files_kept"],
+    counts={"quick": 1600, "thorough": 60000, "search": 8000},
+    rule="four case families from one PRNG: (text) metadata file written by the real code for 0-6 columns drawn from all 384 option values, "
+         "versions incl. unsupported ones, random salts - compared byte for byte with the model; (parse) that file or one of 10 damaged variants "
+         "(deleted byte, bad bool, unknown compression, CRLF, trailing newline, missing salt, sizes marker, duplicate key, empty line, signed version) "
+         "read by the real parser - result or error class compared; (validate) a database created with stored options opened with equal / longer / shorter / "
+         "one-flag-different requested options - class compared, directory must be byte-identical after a refusal; (admin) add_column / drop_last_column / "
+         "reset_column / clear_column on 1-4 column databases of mixed kinds with content, half of them crash images with unreplayed log records - "
+         "removed file names compared with the model, full read-out judged by the oracle; (missing) open without create on a missing or empty directory. "
+         "Non-trivial: every case except zero-column texts and validate cases with equal options",
+    assumptions=["whole-file round trip for arbitrary column counts is checked by correspondence (the proved part is the per-column codec, exhaustively)",
+                 "multitree columns are administered by the C10 check's databases, not here"],
+    explanation="text codec modelled with the literal labels regenerated from options.rs; exhaustive kernel sweeps for the 384 option values and the 65536 column pairs",
 )
